@@ -234,6 +234,7 @@ static WB_BOOL convert_char_to_ucs4(WB_UTINY ch, WB_ULONG *result);
 
 static WBXMLEncoder *encoder_duplicate(WBXMLEncoder *encoder);
 static WBXMLError encoder_encode_tree(WBXMLEncoder *encoder);
+static WBXMLError encoder_encode_tree_to_output(WBXMLEncoder *encoder, WB_UTINY **result, WB_ULONG *result_len);
 static WB_BOOL encoder_init_output(WBXMLEncoder *encoder);
 
 
@@ -469,12 +470,14 @@ WBXML_DECLARE(void) wbxml_encoder_reset(WBXMLEncoder *encoder)
     encoder->output_header = NULL;
     
     encoder->current_tag = NULL;
+    encoder->current_text_parent = NULL;
     encoder->current_attr = NULL;
     encoder->current_node = NULL;
     
     encoder->tagCodePage = 0;
     encoder->attrCodePage = 0;
     
+    encoder->indent = 0;
     encoder->in_content = FALSE;
     encoder->in_cdata = FALSE;
     
@@ -484,8 +487,9 @@ WBXML_DECLARE(void) wbxml_encoder_reset(WBXMLEncoder *encoder)
     encoder->pre_last_node_len = 0;
 
 #if defined( WBXML_ENCODER_USE_STRTBL )
-    wbxml_list_destroy(encoder->strstbl, wbxml_strtbl_element_destroy_item);
-    encoder->strstbl = NULL;
+    /* Empty the String Table, but keep the list: it is created only once, by wbxml_encoder_create() */
+    while (wbxml_list_len(encoder->strstbl) > 0)
+        wbxml_strtbl_element_destroy((WBXMLStringTableElement *) wbxml_list_extract_first(encoder->strstbl));
     encoder->strstbl_len = 0;
 #endif /* WBXML_ENCODER_USE_STRTBL */
 }
@@ -578,8 +582,6 @@ WBXML_DECLARE(void) wbxml_encoder_set_tree(WBXMLEncoder *encoder, WBXMLTree *tre
 
 WBXML_DECLARE(WBXMLError) wbxml_encoder_encode_tree_to_wbxml(WBXMLEncoder *encoder, WB_UTINY **wbxml, WB_ULONG *wbxml_len)
 {
-    WBXMLError ret = WBXML_OK;
-
     /* Check Parameters */
     if (encoder == NULL)
         return WBXML_ERROR_BAD_PARAMETER;
@@ -591,19 +593,13 @@ WBXML_DECLARE(WBXMLError) wbxml_encoder_encode_tree_to_wbxml(WBXMLEncoder *encod
     /* We output WBXML */
     wbxml_encoder_set_output_type(encoder, WBXML_ENCODER_OUTPUT_WBXML);
 
-    /* Encode */
-    if ((ret = encoder_encode_tree(encoder)) != WBXML_OK)
-        return ret;
-
-    /* Get result */
-    return wbxml_encoder_get_output(encoder, wbxml, wbxml_len);
+    /* Encode and get result */
+    return encoder_encode_tree_to_output(encoder, wbxml, wbxml_len);
 }
 
 
 WBXML_DECLARE(WBXMLError) wbxml_encoder_encode_tree_to_xml(WBXMLEncoder *encoder, WB_UTINY **xml, WB_ULONG *xml_len)
 {
-    WBXMLError ret = WBXML_OK;
-
     /* Check Parameters */
     if (encoder == NULL)
         return WBXML_ERROR_BAD_PARAMETER;
@@ -615,12 +611,8 @@ WBXML_DECLARE(WBXMLError) wbxml_encoder_encode_tree_to_xml(WBXMLEncoder *encoder
     /* We output WBXML */
     wbxml_encoder_set_output_type(encoder, WBXML_ENCODER_OUTPUT_XML);
 
-    /* Encode */
-    if ((ret = encoder_encode_tree(encoder)) != WBXML_OK)
-        return ret;
-
-    /* Get result */
-    return wbxml_encoder_get_output(encoder, xml, xml_len);
+    /* Encode and get result */
+    return encoder_encode_tree_to_output(encoder, xml, xml_len);
 }
 
 
@@ -955,6 +947,39 @@ static WBXMLError encoder_encode_tree(WBXMLEncoder *encoder)
 
     /* Let's begin WBXML Tree Parsing */
     return parse_node(encoder, encoder->tree->root, TRUE);
+}
+
+
+/**
+ * @brief Encode the WBXML Tree of an Encoder, and get the result
+ * @param encoder    [in]  The WBXML Encoder
+ * @param result     [out] Resulting document
+ * @param result_len [out] Resulting document length
+ * @return WBXML_OK if encoding is OK, an error code otherwise
+ * @note encoder_encode_tree() stores values it derives from the tree (language, output charset,
+ *       use of the string table) into fields that also are settings made by the caller, and
+ *       wbxml_encoder_get_output() still needs them: put the settings of the caller back when
+ *       the run ends, so that they do not leak into the next tree encoded with this encoder.
+ */
+static WBXMLError encoder_encode_tree_to_output(WBXMLEncoder *encoder, WB_UTINY **result, WB_ULONG *result_len)
+{
+    const WBXMLLangEntry *lang           = encoder->lang;
+    WBXMLCharsetMIBEnum   output_charset = encoder->output_charset;
+#if defined( WBXML_ENCODER_USE_STRTBL )
+    WB_BOOL               use_strtbl     = encoder->use_strtbl;
+#endif /* WBXML_ENCODER_USE_STRTBL */
+    WBXMLError            ret            = WBXML_OK;
+
+    if ((ret = encoder_encode_tree(encoder)) == WBXML_OK)
+        ret = wbxml_encoder_get_output(encoder, result, result_len);
+
+    encoder->lang           = lang;
+    encoder->output_charset = output_charset;
+#if defined( WBXML_ENCODER_USE_STRTBL )
+    encoder->use_strtbl     = use_strtbl;
+#endif /* WBXML_ENCODER_USE_STRTBL */
+
+    return ret;
 }
 
 
